@@ -119,18 +119,6 @@ pub fn make_single_module(operation: &Operation, spec: &HirSpec, cfg: &Config) -
 }
 
 pub fn assign_inputs_to_request(inputs: &[Parameter]) -> TokenStream {
-    let params_except_path: Vec<&Parameter> = inputs
-        .iter()
-        .filter(|&input| input.location != Location::Path)
-        .collect();
-    if params_except_path
-        .iter()
-        .all(|&input| input.location == Location::Query)
-    {
-        return quote! {
-            r = r.set_query(self.params);
-        };
-    }
     let assigns = inputs
         .iter()
         .filter(|input| input.location != Location::Path)
